@@ -5,7 +5,7 @@
 
 use crate::campaign::{drop_each, Campaign, Outcome, Tier};
 use crate::gen::{gen_input, Gen, GenCfg};
-use crate::host::{Answer, HasHost, Host, HostScript};
+use crate::host::{compact_in_resolve, Answer, HasHost, Host, HostScript};
 use crate::rng::{Fnv, Rng};
 use crate::simdata::{BasicW, BlockKnob, Knobs, SimData, Strat};
 use crate::val::{materialise, read_lookups_deep, read_val, Val};
@@ -271,6 +271,11 @@ impl Campaign for C19 {
                     _ => pre.push(BEv::Optimize(random_roots(rng))),
                 }
             }
+        }
+        // (last draw, so that earlier scenarios keep their shape) the host compacts the store inside its *resolve*
+        // callback as well: the runtime holds no address across that callback, so this is legal host behaviour
+        if rng.chance(1, 10) {
+            compact_in_resolve(&mut script);
         }
         Sc19 { knobs, programs, retained, run_program, input, script, pre, boundaries, tail_every, max_steps: 1500 }
     }
@@ -1007,6 +1012,10 @@ pub fn execute(sc: &Sc19) -> Outcome {
             marks.clear();
             out.count("f8_compactions_inside_a_callback", 1);
             out.probe("compaction-inside-a-callback");
+            if ia == Some(garnish_lang_traits::Instruction::Resolve) {
+                out.count("f8_compactions_inside_a_resolve_callback", 1);
+                out.probe("compaction-inside-a-resolve-callback");
+            }
         }
         steps += 1;
         k += 1;
